@@ -32,6 +32,44 @@ type factFlow struct {
 	deadEdge func(cur uint, cond ssa.Value, pol bool, res func(ssa.Value) ssa.Value) bool
 	onInstr  func(in ssa.Instruction, res func(ssa.Value) ssa.Value) (set, clear uint)
 	inline   func(h *ssa.Function) bool
+	// check (optional) is shown every instruction of the function and of the helpers walked, with
+	// the vectors that can reach it (possibly several times, with growing sets)
+	check func(in ssa.Instruction, state factSet, res func(ssa.Value) ssa.Value)
+}
+
+const (
+	factTagShift = 56
+	factTagMask  = uint(0xff) << factTagShift
+)
+
+// phiCondPredIndex: block sc ends in an If whose condition is (the negation of) a phi of sc; the
+// index of pred among sc's predecessors, else -1.
+func phiCondPredIndex(sc, pred *ssa.BasicBlock) int {
+	if len(sc.Instrs) == 0 {
+		return -1
+	}
+	iff, ok := sc.Instrs[len(sc.Instrs)-1].(*ssa.If)
+	if !ok {
+		return -1
+	}
+	v := iff.Cond
+	for i := 0; i < 4; i++ {
+		if u, ok := v.(*ssa.UnOp); ok && u.Op == token.NOT {
+			v = u.X
+			continue
+		}
+		break
+	}
+	ph, ok := v.(*ssa.Phi)
+	if !ok || ph.Block() != sc {
+		return -1
+	}
+	for i, pb := range sc.Preds {
+		if pb == pred {
+			return i
+		}
+	}
+	return -1
 }
 
 type factSet map[uint]bool
@@ -47,6 +85,8 @@ func (s factSet) holds(bit uint) bool {
 	}
 	return true
 }
+
+// (the high byte of a vector is bookkeeping of the engine, not a fact)
 
 // every: each vector satisfies pred (false for the empty set: the point is not reached).
 func (s factSet) every(pred func(uint) bool) bool {
@@ -153,6 +193,22 @@ func (ff *factFlow) analyse(fn *ssa.Function, entry factSet, res func(ssa.Value)
 		}
 		cond, neg := stripNot(iff.Cond)
 		pol := (succ == 0) != neg
+		if ph, isPhi := cond.(*ssa.Phi); isPhi && ph.Block() == b {
+			tag := int(f & factTagMask >> factTagShift)
+			f &^= factTagMask
+			if tag >= 1 && tag <= len(ph.Edges) {
+				ev, eneg := stripNot(ph.Edges[tag-1])
+				cond, pol = ev, pol != eneg
+				if k, isK := ev.(*ssa.Const); isK {
+					if bv, isB := boolConst(k); isB {
+						if bv == pol {
+							out[f] = true
+						}
+						return out
+					}
+				}
+			}
+		}
 		// err == nil / err != nil on the error of a summarised helper
 		if bo, ok := cond.(*ssa.BinOp); ok && (bo.Op == token.EQL || bo.Op == token.NEQ) && isNilConst(bo.Y) && isErrorType(bo.X.Type()) {
 			if c := callOf(bo.X); c != nil {
@@ -270,6 +326,9 @@ func (ff *factFlow) analyse(fn *ssa.Function, entry factSet, res func(ssa.Value)
 					bs := factSet{}
 					bs.addAll(state)
 					before[ins] = bs
+					if ff.check != nil {
+						ff.check(ins, bs, res)
+					}
 				}
 				if c, ok := ins.(*ssa.Call); ok {
 					if h := helper(c); h != nil {
@@ -342,6 +401,16 @@ func (ff *factFlow) analyse(fn *ssa.Function, entry factSet, res func(ssa.Value)
 				}
 				if len(ev) == 0 {
 					continue
+				}
+				// a successor that branches on a boolean phi of its own (short-circuit evaluation stored in
+				// a variable): the vectors remember the edge they arrive by, so that the phi's value on
+				// that edge decides the branch
+				if pi := phiCondPredIndex(sc, b); pi >= 0 {
+					tagged := factSet{}
+					for v := range ev {
+						tagged[(v&^factTagMask)|uint(pi+1)<<factTagShift] = true
+					}
+					ev = tagged
 				}
 				if record {
 					if edgeOut[factEdge{b, sc}] == nil {
